@@ -632,6 +632,7 @@ class Interp:
         self.impl_consts = {}      # "<F as Trait>::NAME" -> value, supplied by the caller
         self.intrinsics_used = set()
         self.const_cache = {}
+        self.inexact = []
         self.call_log = []
         self.frames = 0
         self.max_blocks = 20000
@@ -943,6 +944,8 @@ class Interp:
         if isinstance(x, Opq) or isinstance(y, Opq):
             return Opq(op)
         if isinstance(x, (F64,)) or isinstance(y, (F64,)):
+            if op in ("Mul", "Div") and isinstance(x, F64) and isinstance(y, F64):
+                return self.float_muldiv(op, x, y, ctx)
             return Opq(op + "-float")
         if op in ("Eq", "Ne", "Lt", "Le", "Gt", "Ge"):
             if isinstance(x, (bool, BT)) or isinstance(y, (bool, BT)):
@@ -971,6 +974,53 @@ class Interp:
         if op == "BitOr":
             return bitor(ctx, x, y, ty)
         raise Unsupported("binary operator " + op)
+
+    # -- IEEE-754 double arithmetic on exactly known operands
+    # F64 kinds used here: ("lit", text) a literal; ("int", v) the conversion of integer v; ("q", (num, den)) exactly num/den;
+    # ("rn", (num, den)) the double nearest to num/den.  One operation on exact operands returns the nearest double of the exact
+    # result (IEEE 754, round to nearest even): that is the whole model.  Whether an operand *is* exact is proved from the
+    # path constraints (an integer of magnitude <= 2^53 is); where it cannot be proved the operation is recorded as a
+    # suspect (`inexact`) with the condition under which it would be inexact, and the result is opaque.
+    def float_exact(self, v, ctx):
+        from fractions import Fraction
+        neg = False
+        while isinstance(v, F64) and v.kind == "neg":
+            v, neg = v.arg, not neg
+        sgn = -1 if neg else 1
+        if v.kind == "lit":
+            fr = Fraction(float(v.arg))
+            return (sgn * fr.numerator, fr.denominator)
+        if v.kind == "q":
+            return (mul(sgn, v.arg[0]), v.arg[1])
+        if v.kind == "int" or (v.kind == "rn" and v.arg[1] == 1):
+            n = v.arg if v.kind == "int" else v.arg[0]
+            if isinstance(n, int):
+                return (sgn * n, 1) if abs(n) <= 2 ** 53 else None
+            cond = "(and (<= %s %d) (>= %s %d))" % (n.s, 2 ** 53, n.s, -(2 ** 53))
+            if (n.lo >= -(2 ** 53) and n.hi <= 2 ** 53) or proves(ctx, cond):
+                return (mul(sgn, n), 1)
+            self.inexact.append((ctx.fork(), "(not %s)" % cond))
+            return None
+        return None
+
+    def float_muldiv(self, op, x, y, ctx):
+        from math import gcd
+        a, b = self.float_exact(x, ctx), self.float_exact(y, ctx)
+        if a is None or b is None:
+            return Opq(op + "-float-inexact")
+        if op == "Div":
+            if not isinstance(b[0], int) or b[0] == 0:
+                return Opq("Div-float")
+            b = (b[1], b[0]) if b[0] > 0 else (-b[1], -b[0])
+        if not isinstance(a[0], int) and not isinstance(b[0], int):
+            return Opq(op + "-float-nonlinear")
+        cn = (a[0] if isinstance(a[0], int) else 1) * (b[0] if isinstance(b[0], int) else 1)
+        sym = a[0] if not isinstance(a[0], int) else (b[0] if not isinstance(b[0], int) else None)
+        den = a[1] * b[1]
+        g = gcd(abs(cn), den) or 1
+        cn, den = cn // g, den // g
+        num = cn if sym is None else mul(cn, sym)
+        return F64("rn", (num, den))
 
     # -- calls
     def call(self, callee, args, ctx, env, fn, dst_ty):
@@ -1003,6 +1053,14 @@ class Interp:
                 x = self.read_place(env.frame(x.fid), x.place)
             if isinstance(r, Adt) and not isinstance(x, (Opq, F64)) and not any(isinstance(v, Opq) for v in r.fields):
                 yield ctx, band(cmp_("Le", r.fields[0], x), cmp_("Le", x, r.fields[1])), env.store; return
+            if isinstance(r, Adt) and isinstance(x, F64) and x.kind in ("rn", "q") and all(isinstance(v, F64) and v.kind == "lit" for v in r.fields):
+                # lo <= RN(n/d) <= hi  <=>  lo <= n/d <= hi   when lo and hi are doubles (rounding is monotone and fixes doubles)
+                from fractions import Fraction
+                lo, hi = Fraction(float(r.fields[0].arg)), Fraction(float(r.fields[1].arg))
+                n, d = x.arg
+                c1 = cmp_("Ge", mul(lo.denominator, n), lo.numerator * d)
+                c2 = cmp_("Le", mul(hi.denominator, n), hi.numerator * d)
+                yield ctx, band(c1, c2), env.store; return
             yield ctx, Opq("contains"), env.store; return
         if last == "is_infinite" and "f64" in name:
             v = args[0]
